@@ -352,6 +352,9 @@ fn do_replay(path: &Path) -> i32 {
             return 2;
         }
     };
+    if v["scenario"].as_str() == Some("miri_leg") {
+        return replay_miri(path, &v);
+    }
     let Some((scn, f)) = static_scenario(v["scenario"].as_str().unwrap_or("")) else {
         eprintln!("HARNESS: unknown scenario in replay file");
         return 2;
@@ -410,6 +413,176 @@ fn write_replay(seed: u64, w: &Work, fl: &Failure, log: &[String]) -> Result<Pat
     });
     std::fs::write(&path, serde_json::to_string_pretty(&j).unwrap()).map_err(|e| e.to_string())?;
     Ok(path)
+}
+
+// ---------------------------------------------------------------------------------------------
+// Miri leg (optional, thorough tier): /verif/e2_wakesim/miri_leg is a tiny std-thread version of
+// scenarios A and B without hooks; Miri's scheduler is seeded (deterministic per seed) and it
+// emulates weak memory for the Relaxed flag accesses. A lost wake-up = "the evaluated program
+// deadlocked".
+
+const MIRI_SEEDS: u64 = 64;
+const MIRI_PREEMPTION: &str = "0.1";
+const MIRI_TIMEOUT_S: u64 = 45 * 60;
+
+fn miri_dir() -> PathBuf {
+    verif_dir().join("e2_wakesim").join("miri_leg")
+}
+
+/// Runs `cargo +nightly miri run --offline` over the seed range; returns (exit code, combined output).
+fn run_miri(lo: u64, hi: u64) -> Result<(Option<i32>, String), String> {
+    let dir = miri_dir();
+    if !dir.join("Cargo.toml").exists() {
+        return Err(format!("{} not found", dir.display()));
+    }
+    let out_path = PathBuf::from("/var/tmp").join(format!("verif-e2-miri-{}-{lo}.log", std::process::id()));
+    let out_file = std::fs::File::create(&out_path).map_err(|e| e.to_string())?;
+    let err_file = out_file.try_clone().map_err(|e| e.to_string())?;
+    let mut child = std::process::Command::new("cargo")
+        .args(["+nightly", "miri", "run", "--offline"])
+        .current_dir(&dir)
+        .env("MIRIFLAGS", format!("-Zmiri-many-seeds={lo}..{hi} -Zmiri-preemption-rate={MIRI_PREEMPTION}"))
+        .env("CARGO_NET_OFFLINE", "true")
+        .env_remove("RUSTUP_TOOLCHAIN")
+        .env_remove("RUSTFLAGS")
+        .stdin(std::process::Stdio::null())
+        .stdout(out_file)
+        .stderr(err_file)
+        .spawn()
+        .map_err(|e| format!("cannot spawn cargo miri: {e}"))?;
+    // safety net only (a livelocked interpretation would otherwise hang the check); not a decision input
+    let t0 = Instant::now();
+    let status = loop {
+        match child.try_wait() {
+            Ok(Some(st)) => break Some(st),
+            Ok(None) => {
+                if t0.elapsed().as_secs() > MIRI_TIMEOUT_S {
+                    let _ = child.kill();
+                    let _ = child.wait();
+                    break None;
+                }
+                std::thread::sleep(std::time::Duration::from_millis(300));
+            }
+            Err(e) => return Err(e.to_string()),
+        }
+    };
+    let text = std::fs::read_to_string(&out_path).unwrap_or_default();
+    let _ = std::fs::remove_file(&out_path);
+    match status {
+        Some(st) => Ok((st.code(), text)),
+        None => Err(format!("timed out after {MIRI_TIMEOUT_S}s")),
+    }
+}
+
+/// (class, detail) of a failing Miri run, or None if the output shows no property-relevant failure.
+fn classify_miri(text: &str) -> Option<(String, String)> {
+    let first_err = text.lines().find(|l| l.starts_with("error:")).unwrap_or("").to_string();
+    if text.contains("the evaluated program deadlocked") {
+        let runner_parked = text.contains("std::thread::park") || text.contains("Parker::park");
+        let class = if runner_parked { "miri_leg/lost_wakeup_runner_parked" } else { "miri_leg/deadlock" };
+        return Some((class.into(), "Miri: the evaluated program deadlocked (runner thread parked forever while data is outstanding)".into()));
+    }
+    if text.contains("every item exactly once") || text.contains("assertion `left == right` failed") {
+        return Some(("miri_leg/oracle_assertion".into(), first_err));
+    }
+    None
+}
+
+fn miri_leg(args: &Args, findings: &[simcore::runner::Finding]) -> (Value, i32) {
+    let t0 = Instant::now();
+    let lo = (args.seed % 100_000) * MIRI_SEEDS;
+    let hi = lo + MIRI_SEEDS;
+    let flags = format!("-Zmiri-many-seeds={lo}..{hi} -Zmiri-preemption-rate={MIRI_PREEMPTION}");
+    println!("miri leg: cargo +nightly miri run --offline in {} with MIRIFLAGS=\"{flags}\"", miri_dir().display());
+    let (code, text) = match run_miri(lo, hi) {
+        Ok(x) => x,
+        Err(e) => {
+            println!("MIRI-LEG: skipped ({e}); the SC-only limitation stays as stated");
+            return (json!({"status": "skipped", "reason": e, "flags": flags}), 0);
+        }
+    };
+    let ok = text.matches("MIRI-LEG-OK").count() as u64;
+    let wall = t0.elapsed().as_secs_f64();
+    if code == Some(0) && ok == MIRI_SEEDS {
+        println!("miri leg: {ok}/{MIRI_SEEDS} seeds ok (scenario A x4 configs + scenario B x2 configs per seed) in {wall:.0}s");
+        return (json!({"status": "ok", "seeds": format!("{lo}..{hi}"), "seeds_ok": ok, "flags": flags, "wall_s": wall,
+            "per_seed": "scenario A (Dfir::run + Mutex data cell; 1x1, 2x1 by-value, 1x2, 2x2 wakers x wakes) and scenario B (dfir_syntax source_stream; 1x2, 2x2 senders x items) on std threads, no hooks"}), 0);
+    }
+    let failing_seed = text.lines().find_map(|l| l.strip_prefix("FAILING SEED: ")).and_then(|s| s.trim().parse::<u64>().ok());
+    let (Some(seed), Some((class, detail))) = (failing_seed, classify_miri(&text)) else {
+        // build problem, missing component, unrelated diagnostic: not a C27 alarm
+        let first = text.lines().find(|l| l.starts_with("error")).unwrap_or("no error line").to_string();
+        println!("MIRI-LEG-NOTE: leg did not complete (exit {code:?}, {ok}/{MIRI_SEEDS} ok): {first} — not counted for C27");
+        return (json!({"status": "incomplete", "exit": code, "seeds_ok": ok, "first_error": first, "flags": flags, "wall_s": wall}), 0);
+    };
+    // replay file + fresh-process confirmation
+    let dir = verif_dir().join("replays");
+    let _ = std::fs::create_dir_all(&dir);
+    let path = dir.join(format!("{PROP}-{}-miri-seed{seed}.json", args.seed));
+    let tail: Vec<&str> = text.lines().filter(|l| !l.starts_with("Trying seed") && !l.starts_with("MIRI-LEG-OK")).take(80).collect();
+    let j = json!({
+        "property": PROP, "engine": ENGINE, "scenario": "miri_leg", "seed": args.seed, "miri_seed": seed,
+        "miri_flags": format!("-Zmiri-many-seeds={seed}..{} -Zmiri-preemption-rate={MIRI_PREEMPTION}", seed + 1),
+        "repo_head": repo_head(), "violation": class, "detail": detail, "miri_output": tail,
+        "how_to_replay": "./target/release/e2_wakesim C27 --replay <this file>  (re-runs cargo +nightly miri run with exactly this seed)",
+    });
+    if std::fs::write(&path, serde_json::to_string_pretty(&j).unwrap()).is_err() {
+        eprintln!("HARNESS: cannot write miri replay file");
+        return (json!({"status": "error"}), 2);
+    }
+    let exe = std::env::current_exe().unwrap();
+    let out = std::process::Command::new(exe).args([PROP, "--replay", path.to_str().unwrap()]).output();
+    let confirmed = matches!(&out, Ok(o) if String::from_utf8_lossy(&o.stdout).contains(&format!("REPLAY-VIOLATION class={class}")));
+    if !confirmed {
+        eprintln!("HARNESS: miri failure {class} (seed {seed}) did not reproduce in a fresh process");
+        return (json!({"status": "unconfirmed", "miri_seed": seed, "class": class}), 2);
+    }
+    if let Some(k) = known_for(findings, PROP, &class) {
+        println!("KNOWN-FINDING: property={PROP} {}", k.what);
+        return (json!({"status": "known_finding", "miri_seed": seed, "class": class, "replay": path}), 0);
+    }
+    println!("violation class={class} miri_seed={seed} : {detail}");
+    println!("VIOLATION property={PROP} replay={}", path.display());
+    (json!({"status": "violation", "miri_seed": seed, "class": class, "replay": path, "flags": flags, "wall_s": wall}), 1)
+}
+
+fn replay_miri(path: &Path, v: &Value) -> i32 {
+    let Some(seed) = v["miri_seed"].as_u64() else {
+        eprintln!("HARNESS: miri replay file without miri_seed");
+        return 2;
+    };
+    let expect = v["violation"].as_str().unwrap_or("").to_string();
+    println!("replay property={PROP} scenario=miri_leg miri_seed={seed}");
+    let (code, text) = match run_miri(seed, seed + 1) {
+        Ok(x) => x,
+        Err(e) => {
+            eprintln!("HARNESS: cannot run the miri leg: {e}");
+            return 2;
+        }
+    };
+    for l in text.lines().filter(|l| !l.starts_with("   Compiling")).take(60) {
+        println!("{l}");
+    }
+    match classify_miri(&text) {
+        Some((class, detail)) => {
+            println!("REPLAY-VIOLATION class={class} detail={detail}");
+            let fs = load_findings();
+            if let Some(k) = known_for(&fs, PROP, &class) {
+                println!("KNOWN-FINDING: property={PROP} {}", k.what);
+                return 0;
+            }
+            println!("VIOLATION property={PROP} replay={}", path.display());
+            1
+        }
+        None if code == Some(0) => {
+            println!("REPLAY-OK expected_class={expect} (no violation on this tree)");
+            0
+        }
+        None => {
+            eprintln!("HARNESS: miri leg failed without a property-relevant diagnostic (exit {code:?})");
+            2
+        }
+    }
 }
 
 // ---------------------------------------------------------------------------------------------
@@ -552,11 +725,8 @@ fn do_check(args: &Args) -> i32 {
     let mut exit = 0;
     let mut reported = 0u64;
     let mut viol_json = vec![];
-    for (class, (w, f)) in by_class.iter().take(6) {
-        if class.starts_with("HARNESS/") {
-            eprintln!("HARNESS: {class} {} (scenario {} {} batch {})", f.detail, w.scenario, w.kind.name(), w.batch);
-            return 2;
-        }
+    let harness_classes: Vec<String> = by_class.keys().filter(|c| c.starts_with("HARNESS/")).cloned().collect();
+    for (class, (w, f)) in by_class.iter().filter(|(c, _)| !c.starts_with("HARNESS/")).take(6) {
         // reproduce in-process from the schedule (also yields the event log of the failing execution)
         let rp = replay_schedule(w.scenario, w.f, &f.schedule);
         let same = rp.failure.as_ref().map(|x| &x.class) == Some(class);
@@ -596,11 +766,41 @@ fn do_check(args: &Args) -> i32 {
         exit = 1;
     }
 
+    for class in &harness_classes {
+        let (w, f) = &by_class[class];
+        eprintln!("HARNESS: {class} {} (scenario {} {} batch {})", f.detail, w.scenario, w.kind.name(), w.batch);
+    }
+    if exit == 0 && !harness_classes.is_empty() {
+        // an execution ended in a way the harness cannot attribute to the property: never an alarm
+        return 2;
+    }
+
+    // ---- optional Miri leg (thorough tier): weak-memory emulation, no hooks, real std threads
+    let miri = if args.tier == "thorough" && std::env::var("E2_NO_MIRI").is_err() && max_wall == 0.0 {
+        let (j, code) = miri_leg(args, &findings);
+        if code == 1 {
+            reported += 1;
+            exit = 1;
+        } else if code == 2 && exit == 0 {
+            exit = 2;
+        }
+        j
+    } else {
+        json!({"status": "not_run", "reason": "thorough tier only (and not with E2_NO_MIRI / VERIF_MAX_S)"})
+    };
+
     let missing: Vec<&str> = REQUIRED_PROBES.iter().copied().filter(|p| probes.get(p).copied().unwrap_or(0) == 0).collect();
     let wall = t0.elapsed().as_secs_f64();
     let per_hour = if batch_wall > 0.0 { evaluations as f64 / batch_wall * 3600.0 } else { 0.0 };
     let yp_named: BTreeMap<String, u64> = yp_hits.iter().map(|(k, v)| (format!("{k:02}:{}", mon::code_name(*k)), *v)).collect();
     let wake_landed: BTreeMap<&str, u64> = probes.iter().filter(|(k, _)| k.starts_with("wake_landed:")).map(|(k, v)| (*k, *v)).collect();
+    let mut assumptions: Vec<String> = ASSUMPTIONS.iter().map(|s| s.to_string()).collect();
+    match miri["status"].as_str() {
+        Some("ok") => assumptions.push(format!(
+            "Beyond SC: this run additionally interpreted a hook-free std-thread version of scenarios A and B under Miri ({MIRI_SEEDS} scheduler seeds, preemption rate {MIRI_PREEMPTION}, weak-memory emulation); that is a small sample, hardware-level reorderings remain uncovered."
+        )),
+        _ => assumptions.push("The Miri leg (weak-memory emulation) did not run in this tier/run: sequentially consistent interleavings only.".to_string()),
+    }
     let ev = json!({
         "property_id": PROP,
         "tier": args.tier,
@@ -630,11 +830,12 @@ fn do_check(args: &Args) -> i32 {
             "stub_components": STUBS,
             "determinism_selftest_runs": st_runs,
             "failing_batches": n_failures,
+            "miri_leg": miri,
             "violation_details": viol_json,
             "engine": ENGINE,
             "repo_head": repo_head(),
         },
-        "assumptions": ASSUMPTIONS,
+        "assumptions": assumptions,
         "wall_s": wall,
         "violations": reported,
     });
